@@ -27,8 +27,9 @@ THEOREMS = ["C13_roundtrip", "C13_roundtrip_trailing", "C13_reject_header", "C13
             "C13_text_records", "C13_text_rejected",
             # the patch of a program, included back, rebuilds the program's image
             "C13_patch_blocks_read_back", "C13_patch_blocks_roundtrip", "C13_patch_blocks_sfc", "C13_include_only_program",
-            "C13_patch_program_roundtrip", "C13_patch_text_roundtrip"]
-PROOF_HEADER = "From A816 Require Import Properties.C13 Properties.C13Text."
+            "C13_patch_program_roundtrip", "C13_patch_text_roundtrip",
+            "C13_oracle_parse_read_agree", "C13_oracle_model_passes", "C13_oracle_corr_implies_spec_file", "C13_oracle_corr_implies_spec", "C13_oracle_non_byte"]
+PROOF_HEADER = "From A816 Require Import Properties.C13Oracle Properties.C13 Properties.C13Text."
 
 
 def instantiate(gen_q):
